@@ -50,3 +50,6 @@ func VerifMetricGroups(groups []samplerGroup) []VerifGroup {
 	}
 	return res
 }
+
+// VerifSingleValueTL exposes ItemValue.singleValueTL (used by MultiValue.TLSizeEstimate).
+func VerifSingleValueTL(v *MultiValue) bool { return v.Value.singleValueTL() }
